@@ -121,6 +121,16 @@ AltAlphabet(t) ==
 AltLeanAlphabet(t) ==
      {FS(f, <<m>>) : f \in {"Decset", "Decrst"}, m \in {1047, 1049}}
   \cup {F2("Cup", a, 1) : a \in 1..t.rows} \cup {F1("Print", 122), F0("Lf"), F2("Decstbm", 1, t.rows - 1)}
+(* the recurring family: state set up on one screen, a resize while the OTHER screen shows (the parked buffer keeps
+   its old geometry and is re-wrapped only on the switch back), then a probe that depends on what must have survived *)
+AltReturnAlphabet(t) ==
+  IF t.alt
+  THEN {FS("Decrst", <<1047>>), FS("Decrst", <<1049>>), F1("Print", 122), F2("Cup", t.rows, t.cols), F2("Decstbm", 1, t.rows - 1), F0("Decsc")}
+  ELSE {FS("Decset", <<1047>>), FS("Decset", <<1049>>), F2("Decstbm", 2, t.rows), F0("Decsc"), F0("Decrc"), F0("Hts"), F2("Cup", t.rows, t.cols),
+        F1("Print", 121), F0("Bs"), F1("Cub", 1), F1("Cht", 2), F0("Lf"), F0("Ri"), F1("Su", 1), FS("Decset", <<6>>)}
+AltReturnResizes(t) == IF t.alt THEN {<<c, r>> \in {<<t.cols + 1, t.rows>>, <<t.cols - 1, t.rows>>, <<t.cols, t.rows + 1>>, <<t.cols, t.rows - 1>>, <<2 * t.cols, t.rows>>} : c >= 1 /\ r >= 1}
+                       ELSE {}
+AltReturnSizes == {<<3, 3>>, <<8, 2>>}
 AltSizes == {<<2, 2>>, <<3, 2>>}
 AltFills == {<<>>, Labelled(4, 2), <<65, 65, 65, 65, 65>>, <<97, 98, 32, 32, 99, 100, 32, 32, 101>>}   \* incl. a long line with blank middle rows
 AltResizes(t) == {<<c, r>> \in {<<2, 2>>, <<2, 4>>, <<3, 3>>, <<1, 2>>, <<3, 1>>} : <<c, r>> # <<t.cols, t.rows>>}
